@@ -27,7 +27,7 @@ RULE = ('A case is one seeded small library (4..40 fragments, 1..4 contigs, with
         'x method {nla, chic} x initial state {empty directory, leftovers of a successful run}; for it the fault family is ENUMERATED from the crash-point map of '
         'a fault-free traced run: kill (os._exit) at every distinct executed (function,line) of the pipeline functions in every occurrence class '
         '{first, second, middle, last-but-one, last}; an exception at every I/O seam (pysam.sort/index/merge/idxstats, AlignmentFile.write/close, os.rename/remove, '
-        'shutil.move/rmtree) in call-index classes {0,1,middle,last} with each applicable error; worker exception / loss in every job; thorough tier adds '
+        'shutil.move/rmtree; fetch of the input: EIO or a failing allocation at a delivered record) in call-index classes {0,1,middle,last} with each applicable error; worker exception / loss in every job; thorough tier adds '
         'file-size limits (EFBIG) at 24 quantiles. evaluations = lifetimes under one fault. Non-trivial: the fault fired after the first record was written and '
         'before the lifetime would have ended (in-flight state); distinct = distinct (case, fault plan) signatures among those.')
 ASSUMPTIONS = [
@@ -46,7 +46,7 @@ SLICES = 4
 OCC = ['first', 'second', 'middle', 'last-but-one', 'last']
 SEAM_ERRORS = {
     'pysam.sort': ['SamtoolsError', 'SamtoolsError+partial'], 'pysam.index': ['SamtoolsError'], 'pysam.merge': ['SamtoolsError', 'SamtoolsError+partial'], 'pysam.idxstats': ['SamtoolsError'],
-    'AlignmentFile.read': ['OSError:EIO'], 'AlignmentFile.write': ['OSError:ENOSPC', 'OSError:EIO'], 'AlignmentFile.close': ['OSError:ENOSPC'],
+    'AlignmentFile.read': ['OSError:EIO', 'MemoryError'], 'AlignmentFile.write': ['OSError:ENOSPC', 'OSError:EIO'], 'AlignmentFile.close': ['OSError:ENOSPC'],
     'os.rename': ['OSError:ENOSPC', 'OSError:EACCES'], 'os.remove': ['OSError:EACCES'], 'move': ['OSError:ENOSPC'], 'shutil.rmtree': ['OSError:EACCES'],
 }
 
@@ -69,15 +69,23 @@ def generate(seed, tier, index=None):
     method = ['nla', 'chic'][h % 2]
     mp = bool((h >> 1) % 2)
     stale = bool((h >> 2) % 2)
-    special = {3: 'tail-rejects', 6: 'placed-unmapped'}.get(h % 8)      # both are --multiprocess workloads
+    special = {3: 'tail-rejects', 6: 'placed-unmapped', 7: 'equal-length-large-contigs'}.get(h % 8)      # all are --multiprocess workloads
     genome = tw.genome(w, nmax=4)[:4]
+    if special == 'equal-length-large-contigs':
+        # every contig gets a job of its own (>= 100 kb) and two or three of them have exactly the same length
+        ln = w.randint(100000, 140000)
+        genome = [[f'ctg{i}', ln] for i in range(w.choice([2, 3]))] + ([['ctgS', w.randint(300, 3000)]] if w.random() < 0.5 else [])
     frags = tw.library(w, genome, method, n_target=w.randint(4, 40 if tier == 'thorough' else 24))
+    if special == 'equal-length-large-contigs':
+        for i, f in enumerate(frags[:2]):      # both twins carry reads
+            f['ctg'] = i
+        special = None if len(frags) < 2 else special
     no_rejects = w.random() < 0.3
     if tier == 'thorough' and index is not None and index % 40 == 11:
         # scaffold-rich assembly (more than 200 read-carrying small contigs) through the multiprocess pipeline; only a sample of the fault family is run
         genome, frags = tw.many_small_contigs(w, method, n=w.randint(205, 240))
         mp, special = True, 'many-small-contigs'
-    elif special and frags:
+    elif special in ('tail-rejects', 'placed-unmapped') and frags:
         # layouts in which a fault-free run must still deliver every record: a contig holding only placed-unmapped reads;
         # two small contigs sharing a job, the last of which holds only rejected fragments (with --no_rejects its task writes nothing)
         if special == 'tail-rejects':
